@@ -1297,6 +1297,58 @@ def ev_blocks(c, seed, tier, part):
                 c.count('blocks:rejected')
 
 
+def ev_elementwise(c, descA, descB, seed):
+    """cvxopt.mul / div / max / min with sparse arguments (matrices.rst, 'Other Matrix Functions'): values equal the
+    elementwise operation on the dense images; the result is sparse where the manual says so (mul: one or more sparse
+    arguments; max / min: all arguments sparse) and then a valid CCS structure."""
+    import cvxopt
+    m, n, tca, _ = descA
+    tcb = descB[2]
+    Am, pa = model_of(descA, seed)
+    Bm, pb = model_of(descB, seed, 3)
+    A, B, Bd = sp_of(Am, pa), sp_of(Bm, pb), dn_of(Bm)
+    sA, sB = snap(A), snap(B)
+    sub = {'A': descA, 'B': descB}
+    rt = R.tc_max(tca, tcb)
+
+    def D(vals, tc=rt):
+        return R.D(m, n, tc, [R.conv(v, tc) for v in vals])
+    prod = D([a * b for a, b in zip(Am.a, Bm.a)])
+    E = [('mul:sparse,sparse', lambda: cvxopt.mul(A, B), prod, True),
+         ('mul:sparse,dense', lambda: cvxopt.mul(A, Bd), prod, True),
+         ('mul:dense,sparse', lambda: cvxopt.mul(Bd, A), prod, True),
+         ('mul:sparse,number', lambda: cvxopt.mul(A, 2.0), D([2.0 * a for a in Am.a], R.tc_max(tca, 'd')), True)]
+    if tca == 'd' and tcb == 'd':
+        mx = D([max(a, b) for a, b in zip(Am.a, Bm.a)])
+        mn = D([min(a, b) for a, b in zip(Am.a, Bm.a)])
+        E += [('max:sparse,sparse', lambda: cvxopt.max(A, B), mx, True), ('min:sparse,sparse', lambda: cvxopt.min(A, B), mn, True),
+              ('max:sparse,dense', lambda: cvxopt.max(A, Bd), mx, False), ('min:dense,sparse', lambda: cvxopt.min(Bd, A), mn, False),
+              ('max:sparse,number', lambda: cvxopt.max(A, 1.5), D([max(a, 1.5) for a in Am.a]), False),
+              ('min:number,sparse', lambda: cvxopt.min(-0.5, A), D([min(a, -0.5) for a in Am.a]), False)]
+    if all(b != 0 for b in Bm.a) and m * n:
+        q = D([a / b for a, b in zip(Am.a, Bm.a)], R.tc_max(rt, 'd'))
+        E += [('div:sparse,dense', lambda: cvxopt.div(A, Bd), q, None)]
+    E += [('div:sparse,number', lambda: cvxopt.div(A, 4.0), D([a / 4.0 for a in Am.a], R.tc_max(tca, 'd')), None)]
+    for name, f, exp, want_sparse in E:
+        c.n += 1
+        K = 'C16:elementwise:' + name + (':1x1' if m * n == 1 else '')
+        try:
+            got = f()
+        except Exception as e:
+            c.fail(K + ':exception:' + type(e).__name__, 'documented call raised %r' % e, sub)
+            continue
+        from cvxopt import spmatrix, matrix
+        if want_sparse is None:
+            want_sparse = isinstance(got, spmatrix)         # div: the manual does not say; values and structure are checked
+        ok = vsp(c, K, got, exp, None, sub) if want_sparse else vdn(c, K, got, exp, sub)
+        if ok:
+            c.count('elementwise:ok')
+            if pa:
+                c.nontrivial += 1
+    if snap(A) != sA or snap(B) != sB or list(Bd) != Bm.a:
+        c.fail('C16:elementwise:operand-modified', 'an argument of mul / div / max / min changed', sub)
+
+
 def ev_spdiag(c, seed, tier):
     from cvxopt import matrix, spmatrix, spdiag
     # vectors: dense column / row, sparse column / row
@@ -1665,6 +1717,12 @@ def cases(tier, seed, flavour):
                 if keep(bi, 4, 2):
                     yield {'p': 'binary', 'A': [[m, n, tc, p] for p in blk], 'tcb': 'dz' if th else tc + ('z' if tc == 'd' else 'd'),
                            'tier': tier}
+    # ---- 3b. elementwise functions mul / div / max / min with sparse arguments
+    for (m, n) in SHAPES + ((1, 1), (0, 2)):
+        for tc in 'dz':
+            for bi, blk in enumerate(chunks(all_patterns(m * n)[::(1 if th else 5)], 27)):
+                if keep(bi, 4, 2):
+                    yield {'p': 'elementwise', 'A': [[m, n, tc, p] for p in blk], 'tcb': 'dz' if tc == 'd' else 'z'}
     # ---- 4. block matrices and spdiag
     for part in range(4):
         yield {'p': 'blocks', 'part': part, 'tier': tier}
@@ -1818,6 +1876,11 @@ def _run(c, case, seed, extra):
             for tcb in case['tcb']:
                 for pb in b_palette(d[0], d[1], case['tier']) if d[0] * d[1] else ['']:
                     ev_binary(c, d, [d[0], d[1], tcb, pb], seed)
+    elif p == 'elementwise':
+        for d in case['A']:
+            for tcb in case['tcb']:
+                for pb in b_palette(d[0], d[1], 'thorough') if d[0] * d[1] else ['']:
+                    ev_elementwise(c, d, [d[0], d[1], tcb, pb], seed)
     elif p == 'blocks':
         ev_blocks(c, seed, case['tier'], case['part'])
     elif p == 'spdiag':
